@@ -41,7 +41,10 @@ Section Frame.
   Definition hydrogen (hv : hvariant) (rs : list residue) (ri : nat) : option vec :=
     let r := nth ri rs (mkRes None None None None false) in
     match ri with
-    | O => Some (to_fx (at_idx (r_n r)))
+    | O => match hv with
+           | h_cur => Some (to_fx (at_idx (r_n r)))          (* stored even when residue 0 has no N (index -1) *)
+           | h_fix => if r_skip r then None else Some (to_fx (at_idx (r_n r)))
+           end
     | S pi =>
       if r_skip r then None
       else
